@@ -416,6 +416,8 @@ struct Env {
     base: std::path::PathBuf,
     /// Open finding K-C10 listed: cancellations inside `commit()` / `rollback()` are not generated.
     k_c10_open: bool,
+    /// Extra runs of a case in `--replay` mode.
+    replay_repeats: u32,
 }
 
 async fn drive(env: &Env, case: &Case, dir: &CaseDir, spare_end: bool) -> Result<Shared, String> {
@@ -523,7 +525,16 @@ async fn drive(env: &Env, case: &Case, dir: &CaseDir, spare_end: bool) -> Result
 }
 
 fn check(env: &Env, case: &Case) -> CaseResult {
-    check_inner(env, case, env.k_c10_open)
+    // Whether a cancellation collides with the SQLite worker is timing-dependent; an explicit
+    // `--replay` therefore runs the saved case repeatedly and reports the first failure.
+    let mut last = check_inner(env, case, env.k_c10_open);
+    for _ in 0..env.replay_repeats {
+        if last.is_err() {
+            break;
+        }
+        last = check_inner(env, case, env.k_c10_open);
+    }
+    last
 }
 
 fn check_inner(env: &Env, case: &Case, spare_end: bool) -> CaseResult {
@@ -640,6 +651,7 @@ pub fn run(mut ctx: Ctx) -> ! {
         template: Template::build(&base),
         base: base.clone(),
         k_c10_open: ctx.is_open("K-C10"),
+        replay_repeats: if ctx.replay.is_some() { 40 } else { 0 },
     };
     if env.k_c10_open && ctx.replay.is_none() {
         let (reproduced, detail) = probe(&env);
